@@ -70,6 +70,13 @@ def run(chk: Check):
         d = rng.choice([1, 2, 3, 5, 8, 13, 40, rng.randint(1, 40)])
         k = rng.randint(1, 12)
         reqs.append(f"halton.seq {k} {s} {d} " + " ".join(str(p) for p in PRIMES40[:d])); meta.append(("seq", k, s, d))
+    # ---- every power of every base in range as the LAST, the FIRST and an inner index of a batch (digit-count / carry boundaries), all 40 bases
+    powers = sorted({p ** e for p in PRIMES40 for e in range(2, 17) if p ** e < 2 ** 16 + 2 ** 12})
+    for P in powers:
+        for k, s in ((rng.randint(1, 9), None), (rng.randint(2, 9), P - 1), (rng.randint(3, 9), max(0, P - 2))):
+            s = max(0, P - k) if s is None else s          # first variant: the batch ENDS at index P (indices s+1 .. s+k)
+            reqs.append(f"halton.seq {k} {s} 40 " + " ".join(str(p) for p in PRIMES40)); meta.append(("seq", k, s, 40))
+    chk.count("prime_power_batch_boundaries", 3 * len(powers))
     # ---- HaltonSampler: seeds, cursors, successive batches
     M = 150 if chk.tier == "quick" else 3000
     for _ in range(M):
@@ -84,10 +91,16 @@ def run(chk: Check):
 
     # run the implementation first for the sampler cases (their requests depend on the recorded seed draws)
     impl_out = {}
+    h_reuse = []
     for i, m in enumerate(meta):
         if m[0] == "hsampler":
             _, seed, d, sizes, forced = m
-            smp = hm.HaltonSampler(batch_size=sizes[0], random_state=0)
+            if h_reuse and i % 2 == 0:
+                smp = h_reuse[0]          # one long-lived sampler object serving spaces of changing dimension (prime tables, cursors must follow)
+                chk.count("halton_object:reused")
+            else:
+                smp = hm.HaltonSampler(batch_size=sizes[0], random_state=0)
+                h_reuse[:] = [smp]
             g = install(smp, RecGen(seed)); smp._reset_sequence_index()
             s0 = int(smp._sequence_index)
             drawn = [x for x in g.log if x[0] == "integers"]
